@@ -13,7 +13,7 @@ U2 == <<"u", "2">>
 C_ElemNames == {[sp |-> <<>>, lo |-> <<"a">>], [sp |-> U1, lo |-> <<"b">>]}
 C_AttrNames == {[sp |-> <<>>, lo |-> <<"x">>]}
 C_AttrValues == {<<"1">>}
-C_NsDecls == {[lo |-> <<"p">>, v |-> U1], [lo |-> <<"p">>, v |-> U2], [lo |-> <<>>, v |-> U1]}
+C_NsDecls == {[lo |-> <<"p">>, v |-> U1], [lo |-> <<"p">>, v |-> U2], [lo |-> <<>>, v |-> U1], [lo |-> <<>>, v |-> <<>>]}
 C_Texts == {<<"t">>}
 C_Comments == {<<"c">>}
 C_PIs == {[lo |-> <<"t">>, v |-> <<"d">>]}
